@@ -145,6 +145,9 @@ func (bucket *TypedBucket) GetBucketByKey(key []byte) *TypedBucket {
 	if bucket.HasError() {
 		return bucket
 	}
+	if bucket.Bucket == nil { // placeholder for an extended store entity without child data, see getTyped
+		return nil
+	}
 	child := bucket.Bucket.Bucket(key)
 	if child == nil {
 		return nil
